@@ -38,7 +38,9 @@ ASSUMPTIONS = [
     'representable (exact=1), else relative 1e-9',
     'MW = m^T A (atomic masses) is a monitored hypothesis (pkg line, 1e-9 relative); mass conservation is a corollary',
     'a reaction is "balanced" when formula_array @ stoichiometry_by_mol is 0 to 1e-9 of the largest coefficient',
-    'members of a set/system are not modified after the set is built (ReactionSet shares their stoichiometry objects)',
+    'members of a ParallelReaction/SeriesReaction are not modified after the set is built (ReactionSet shares '
+    'their stoichiometry objects but keeps its own basis label); plain Reaction members of a ReactionSystem are '
+    '(basis setter after the system was built: the system is modelled through its references)',
     'nested ReactionSystems, KineticReaction, ReactionItem/X setters and reaction arithmetic (C17) are not modelled',
     'the model follows the repaired behaviour of fixes_proposed/C05-1..5 (multi-phase other-package write-back '
     '[already in /repo], phase-less reaction on a MultiStream, SparseArray argument, check_atomic_balance, '
@@ -144,6 +146,7 @@ def err_class(e):
     if isinstance(e, (UndefinedChemical, UndefinedChemicalAlias)): return 'UndefinedChemical'
     if isinstance(e, UndefinedPhase): return 'UndefinedPhase'
     if isinstance(e, RuntimeError) and 'does not participate' in str(e): return 'NoReactant'
+    if isinstance(e, RuntimeError) and 'same basis' in str(e): return 'BasisMix'
     if isinstance(e, ValueError): return 'ValueError'
     return type(e).__name__
 
@@ -370,7 +373,9 @@ class World:
                 react(mat)
             except Exception as ex:
                 ec = err_class(ex)
-                if ec == 'Infeasible' and not force:
+                if ec == 'BasisMix' and self.mixed_basis(e):
+                    pass
+                elif ec == 'Infeasible' and not force:
                     self.check_raise(obj, e, before, ec, fail, rchems, basis, array=True)
                 elif before.shape == (max(1, len(obj._phases)), rchems.size):
                     fail('unexpected-exception', f'{type(ex).__name__}: {str(ex)[:120]} — on an array of the '
@@ -397,7 +402,9 @@ class World:
             react(s)
         except Exception as ex:
             ec = err_class(ex)
-            if self.in_quantifier(name, obj, ph, before, schems, rchems):
+            if ec == 'BasisMix' and self.mixed_basis(e):
+                pass                    # the documented refusal of a system whose members differ in basis
+            elif self.in_quantifier(name, obj, ph, before, schems, rchems):
                 if ec == 'Infeasible' and not force:
                     vals = self.to_package(before, schems, rchems)
                     if basis == 'wt': vals = vals * rchems.MW
@@ -456,6 +463,12 @@ class World:
         except NoRef:
             return False
 
+    def mixed_basis(self, e):
+        """a ReactionSystem one of whose member Reaction objects has been switched to another basis since"""
+        if e['kind'] != 'sys': return False
+        obj = e['obj']
+        return any(self.objs[m]['obj']._basis != obj._basis for m in e['members'] if m in self.objs)
+
     def expected_delta(self, obj, vals):
         """feed + what the real `conversion` reports (real code, array path), in the object's own layout"""
         v = np.array(vals, float)
@@ -500,6 +513,12 @@ class World:
         A = chems.formula_array
         MW = chems.MW
         scale = max(1., float(np.abs(mol_b).max()), float(np.abs(mol_a).max()))
+        # a system whose members no longer share one basis must refuse to run
+        if self.mixed_basis(e):
+            bases = [self.objs[m]['obj']._basis for m in e['members']]
+            fail('mixed-basis-applied', f'the by-{obj._basis} system was applied although its members are now by '
+                 f'{bases} (mass {float(MW @ mol_b.sum(0))!r} -> {float(MW @ mol_a.sum(0))!r})')
+            return
         # chemicals that no reaction mentions keep their flows, phase by phase
         try:
             tch = self.touched(name)
@@ -604,7 +623,8 @@ class World:
             # 5. a normal return although a flow had to go clearly negative
             try:
                 exp = vals_b + self.expected_delta(obj, vals_b)
-                if not force and exp[exp < 0].sum() < -1e-9 * vs:
+                # (the code's own threshold is an absolute 1e-12; allow for the round-off of this recomputation)
+                if not force and exp[exp < 0].sum() < -(1e-11 + 1e-13 * vs):
                     fail('missing-raise', f'returned normally although the conversion requires negative flows '
                                           f'(sum {float(exp[exp < 0].sum())!r})')
                     return
@@ -648,6 +668,8 @@ def run_impl(case: Case) -> ImplResult:
         tags.add(toks[0] if toks[0] != 'call' else 'call:' + toks[2])
         if toks[0] == 'call':
             if kv(toks, 'mode') == 'force': tags.add('call:force')
+            if toks[1] in W.objs and W.objs[toks[1]]['kind'] == 'sys' and W.mixed_basis(W.objs[toks[1]]):
+                tags.add('call:sys-after-member-basis-change')
             if toks[2] == 'arr':
                 tags.add(f'call:arr-{kv(toks, "as", "nd")}{"2d" if ";" in kv(toks, "rows", "") else "1d"}')
             else:
@@ -1016,7 +1038,7 @@ def _top_up(rng, node, rx, feed, margin):
     return feed, _plan_apply(node, rx, feed)
 
 
-MALFORMED = (['noreactant', 'auto-many', 'basis-mix', 'phase-kw'] +
+MALFORMED = (['noreactant', 'auto-many', 'basis-mix', 'phase-kw'] + ['late-basis'] * 3 +
              ['x-out', 'stream-phase', 'stream-extra', 'pkg-missing'] * 2 + ['asis', 'short'] * 3)
 
 
@@ -1032,6 +1054,7 @@ def gen_case(rng):
     rk = rng.choice([0, 0, 0, 0, 1, 2, 4])
     basis = 'wt' if rng.random() < 0.3 else 'mol'
     shape = rng.choices(['single', 'par', 'ser', 'sys'], [40, 20, 20, 20])[0]
+    if mal == 'late-basis': shape = 'sys'
     exact_bias = rng.random() < 0.6
     used_pkgs = [rk]
     nrx = 1 if shape == 'single' else rng.choice([1, 2, 2, 3, 3, 4])
@@ -1081,9 +1104,19 @@ def gen_case(rng):
                 nm = f'{"p" if kind == "par" else "s"}{nsets}'; nsets += 1
                 body.append(f'{kind} {nm} {",".join(x for x, _ in ms)}')
                 members.append(nm); nodes.append((kind, [i for _, i in ms])); budget_rx -= m
+        if mal == 'late-basis' and not any(k == 'single' for k, _ in nodes):
+            m, i0 = new_rxn(basis)
+            members.append(m); nodes.append(('single', i0))
         target = 'y0'
         body.append(f'sys {target} {",".join(members)}')
         plan = ('sys', nodes)
+        if mal == 'late-basis':
+            # the system keeps references: a member Reaction is switched to the other basis after the system
+            # was built (→ the system must refuse to run), sometimes switched back (→ it runs again)
+            singles = [m for m, (k, _) in zip(members, nodes) if k == 'single']
+            late = rng.choice(singles)
+            other_b = 'mol' if basis == 'wt' else 'wt'
+            late_ops = [f'setbasis {late} {other_b}']
     # ---- malformed definitions live next to the target so that the calls below still run
     extra = []
     if mal in ('noreactant', 'auto-many', 'phase-kw'):
@@ -1176,6 +1209,12 @@ def gen_case(rng):
             same = [o for o, pt in origs if pt == pts[0]]
             if same:
                 calls = calls + [calls[0].replace(f'call {target} ', f'call {rng.choice(same)} ', 1)]
+    if mal == 'late-basis' and shape == 'sys':
+        # use the system, switch a member, use it again (refused), maybe switch back and use it once more
+        first = calls[:1] if rng.random() < 0.5 else []
+        tail = ([f'setbasis {late} {basis}'] + [c for c in calls if c.startswith(f'call {target} ')][:1]) \
+            if rng.random() < 0.4 else []
+        calls = first + late_ops + [f'call {late} ' + calls[0].split(' ', 2)[2]] + calls + tail
     ops = [f'pkg {k}' for k in used_pkgs] + body + extra + calls
     meta = {'intent': intent}
     if mal: meta['malformed'] = mal
